@@ -8,6 +8,7 @@ import IsoMdl.Driver.ReaderAuth
 import IsoMdl.Driver.DeviceAuthReq
 import IsoMdl.Driver.X509
 import IsoMdl.Driver.Partial
+import IsoMdl.Driver.KeyDerivation
 /-
 Line-protocol driver of the executable model: one operation per input line, one observation per
 output line.  Unknown or malformed operations print `bad-op` (never a default value).
@@ -18,13 +19,19 @@ structure DState where
   world : Option IsoMdl.Session.World := none
   saved : List (String × IsoMdl.Session.World) := []
 
-def stateless : List (List String → Option String) := [ageOp, ivOp, c13Op, c06Op, eqOp, issuanceOp, discOp, cddlOp, wireOp, tag24Op, coseOp, readerAuthOp, deviceAuthReqOp, x509Op, partialOp]
+def stateless : List (List String → Option String) := [ageOp, ivOp, c13Op, c06Op, eqOp, issuanceOp, discOp, cddlOp, wireOp, tag24Op, coseOp, readerAuthOp, deviceAuthReqOp, x509Op, partialOp, kdOp]
 
 def step (st : DState) (line : String) : DState × String :=
   let toks := (line.trimAscii.toString.splitOn " ").filter (· ≠ "")
   match stateless.findSome? (fun h => h toks) with
   | some out => (st, out)
   | none =>
+    -- `spec.eqmodel <expected> <stateless op ...>`: the model's observation (blanks as `_`) equals the expected one
+    if toks.head? == some "spec.eqmodel" && toks.length ≥ 3 then
+      match stateless.findSome? (fun h => h (toks.drop 2)) with
+      | some out => (st, toString (out.replace " " "_" == toks[1]!))
+      | none => (st, "bad-op")
+    else
     if toks.head? == some "sess.save" && toks.length == 2 then
       match st.world with
       | some w => ({ st with saved := (toks[1]!, w) :: st.saved }, "saved")
